@@ -17,6 +17,7 @@ import (
 	"math"
 	"strconv"
 	"strings"
+	"sync"
 
 	"github.com/XiaoMi/Gaea/models"
 	"github.com/XiaoMi/Gaea/proxy/router"
@@ -393,6 +394,7 @@ func runKey(r *ev.Run, c cfg, rule router.Rule, mycat mycatFn, k key) {
 		if c.Type == models.ShardMycatString {
 			sk = sliceKind(c.HashSlice)
 		}
+		noteClass(c.Type + " " + kind + " keyclass=" + k.class() + " keytype=" + k.T + " slice_kind=" + sk)
 		r.Violation(ev.Witness{
 			Summary: fmt.Sprintf("%s key %s [%s]: %s", c.id(), k, k.class(), msg),
 			Features: map[string]string{"rule": c.Type, "kind": kind, "keytype": k.T, "keyclass": k.class(),
@@ -405,6 +407,18 @@ func runKey(r *ev.Run, c cfg, rule router.Rule, mycat mycatFn, k key) {
 	// non-trivial: Mycat and Gaea agree on a data node (distinct by parameters and node)
 	r.Distinct("nontrivial", fmt.Sprintf("%s|%d", c.id(), idx))
 	r.Distinct("agreeing_keyclasses", c.Type+"|"+k.class())
+}
+
+var (
+	classMu sync.Mutex
+	classes = map[string]int{}
+)
+
+// noteClass counts disagreements per mechanism class (reported in coverage.disagreement_classes).
+func noteClass(s string) {
+	classMu.Lock()
+	classes[s]++
+	classMu.Unlock()
 }
 
 func orDash(s string) string {
@@ -480,6 +494,7 @@ func main() {
 	if done != len(cfgs) {
 		r.Capped(fmt.Sprintf("time budget reached after %d of %d parameter sets", done, len(cfgs)))
 	}
+	r.Set("disagreement_classes", classes)
 	r.Set("universe_parameter_sets", len(cfgs))
 	r.Set("universe_keys", len(ks))
 	r.Set("bound", "mycat_mod 1-16 databases; mycat_long: every cover of 1024 by <=3 (count x length) segments with length in "+
